@@ -117,7 +117,21 @@ def gen_case(rng, big, directed=None):
     mmax = {1: 2400 if big else 520, 2: 96 if big else 48, 3: 16 if big else 12}[ndim]
     style = 'd4' if rng.random() < 0.12 else 'plain'
     axes = [gen_axis(rng, nmax, mmax, style if d == 0 else 'plain') for d in range(ndim)]
+    # square / cubic grids (equal dims and spacing on every axis) whose ORIGINS differ between the axes, on the input side
+    # (grid shifted along one axis only) and on the output side (zoom window off-centre along one axis): anything cached per
+    # (dims, delta) instead of per axis — e.g. one ChirpZTransform shared by the axes — is wrong exactly here
+    square = ndim >= 2 and rng.random() < 0.3
+    if square:
+        a0 = axes[0]
+        a0['zero'] = -a0['delta'] * (a0['N'] - 1) / 2.0 if rng.random() < 0.5 else a0['zero']
+        for d in range(1, ndim):
+            for kk in ('N', 'delta', 'q', 'fov'):
+                axes[d][kk] = a0[kk]
+            axes[d]['zero'] = a0['zero'] + a0['delta'] * _dy(rng, 0.125, 3, 3) * (1 if rng.random() < 0.5 else -1)
+            axes[d]['shift'] = a0['shift'] + _dy(rng, 0.125, 2, 3) * (1 if rng.random() < 0.5 else -1)
     case = {k: [a[k] for a in axes] for k in ('N', 'delta', 'zero', 'q', 'fov', 'shift')}
+    if square:
+        case['square'] = True
     r = rng.random()
     case['tensor'] = [] if r < 0.6 else ([2] if r < 0.85 else [2, 2])
     case['dtype'] = 'complex64' if rng.random() < 0.2 else 'complex128'
@@ -138,14 +152,22 @@ def gen_case(rng, big, directed=None):
     if rng.random() < 0.08:
         case['in_kind'] = 'regular-w'
         case['in_weights'] = [_dy(rng, 0.125, 2, 3) * sc ** ndim for _ in range(int(np.prod(case['N'])))]
-    elif rng.random() < 0.3:
+    elif rng.random() < (0.5 if square else 0.3):
         case['family'] = 'grid'
         kind = str(rng.choice(['regular', 'regular', 'separated', 'unstructured']))
+        force_regular = square and rng.random() < 0.75
+        if force_regular:
+            kind = 'regular'
         out = {'kind': kind}
         if kind == 'regular':
             out['N'] = [int(rng.integers(1, max(2, min(2 * n, 40 if ndim < 3 else 7)) + 1)) for n in case['N']]
             out['delta'] = [_dy(rng, 0.03125, 1.5, 5) / sc for _ in range(ndim)]
             out['zero'] = [_dy(rng, -3, 3, 4) / sc for _ in range(ndim)]
+            if square:
+                # square zoom window, off-centre by a different amount on every axis (e.g. centred at (7.5, 0))
+                out['N'] = [max(2, out['N'][0])] * ndim
+                out['delta'] = [out['delta'][0]] * ndim
+                out['zero'] = [out['zero'][0]] + [out['zero'][0] + _dy(rng, 0.25, 8, 2) / sc * (1 if rng.random() < 0.5 else -1) for _ in range(ndim - 1)]
         elif kind == 'separated':
             out['coords'] = [sorted(set(_dy(rng, -4, 4, 5) / sc for _ in range(int(rng.integers(2, 12 if ndim < 3 else 5)))))
                              for _ in range(ndim)]
@@ -160,6 +182,9 @@ def gen_case(rng, big, directed=None):
         if case['in_kind'] == 'separated' and min(case['N']) < 2:
             case['in_kind'] = 'regular'
         r = rng.random()
+        if force_regular:
+            case['in_kind'] = 'regular'      # regular square grid -> regular square window: ZoomFFT, MFT, NFT, auto all apply
+            r = 0.9
         if r < 0.45:
             # explicit input grid (polar or Cartesian) with a per-point weights array
             case['in_kind'] = 'explicit'
@@ -379,6 +404,19 @@ DIRECTED = [
          shift=[0.25, 0.0, 0.5], tensor=[], dtype='complex128', field={'kind': 'random', 'seed': 6}, gseed=6, method=None, mft=[[True, True]]),
     dict(family='fft', N=[5, 3], delta=[0.5, 0.25], zero=[-1.0, -0.25], q=[2.0, 3.0], fov=[1.0, 1.0], shift=[0.0, 0.0], tensor=[2],
          dtype='complex128', field={'kind': 'impulse', 'index': [4, 0]}, gseed=7, method=None, mft=[[True, True]]),
+    # square / cubic grids (equal dims and spacing on all axes) with different origins per axis: input grid shifted along one
+    # axis only (make_pupil_grid(16).shifted([0, 0.3]) style), output window off-centre along one axis only (centre (7.5, 0))
+    dict(family='fft', N=[8, 8], delta=[0.25, 0.25], zero=[-0.875, -0.5], q=[2.0, 2.0], fov=[0.5, 0.5], shift=[0.0, 0.375], tensor=[],
+         dtype='complex128', field={'kind': 'random', 'seed': 8}, gseed=8, method=None, mft=[[True, True]], square=True),
+    dict(family='grid', N=[16, 16], delta=[0.0625, 0.0625], zero=[-0.46875, -0.15625], q=[1.0, 1.0], fov=[1.0, 1.0], shift=[0.0, 0.0], tensor=[],
+         dtype='complex128', field={'kind': 'random', 'seed': 9}, gseed=9, method=None, mft=[[True, False]], in_kind='regular', square=True,
+         out={'kind': 'regular', 'N': [12, 12], 'delta': [0.5, 0.5], 'zero': [4.75, -2.75]}),
+    dict(family='grid', N=[6, 6], delta=[0.5, 0.5], zero=[-1.25, -1.25], q=[1.0, 1.0], fov=[1.0, 1.0], shift=[0.0, 0.0], tensor=[2],
+         dtype='complex128', field={'kind': 'random', 'seed': 10}, gseed=10, method=None, mft=[[False, True]], in_kind='regular', square=True,
+         out={'kind': 'regular', 'N': [6, 6], 'delta': [0.5, 0.5], 'zero': [6.25, -1.25]}),
+    dict(family='grid', N=[4, 4, 4], delta=[0.5, 0.5, 0.5], zero=[-0.75, -0.75, 0.25], q=[1.0, 1.0, 1.0], fov=[1.0, 1.0, 1.0], shift=[0.0, 0.0, 0.0],
+         tensor=[], dtype='complex128', field={'kind': 'random', 'seed': 11}, gseed=11, method=None, mft=[[True, True]], in_kind='regular', square=True,
+         out={'kind': 'regular', 'N': [3, 3, 3], 'delta': [0.75, 0.75, 0.75], 'zero': [-0.75, 1.5, -0.75]}),
 ]
 
 
@@ -1025,6 +1063,8 @@ def count_case(ctx, case, obs):
     ctx.count('tensor-rank:%d' % len(case['tensor']))
     ctx.count('dtype:' + case['dtype'])
     ctx.count('field:' + case['field']['kind'])
+    if case.get('square'):
+        ctx.count('square-grid-with-per-axis-origins:' + case['family'] + (':' + case['out']['kind'] if case['family'] == 'grid' else ''))
     k = case.get('scale_exp', 0)
     ctx.count('input-scale:' + ('1' if k == 0 else ('2^-20..2^-11' if k <= -11 else ('2^-10..2^-1' if k < 0 else ('2^1..2^7' if k < 8 else '2^8..2^14')))))
     if 'seq' in case:
@@ -1196,11 +1236,19 @@ def run(ctx, prop='C01'):
                                               or detail.startswith('cut')) else None
             ctx.disagree('C01 ' + stream, {'case': case, 'detail': detail}, key=None if key is None else None)
     ctx.extra['max_relative_error_vs_defining_sum'] = worst
+    if prop == 'C01':
+        from harness.props import c01_ties
+        k = ctx.scale(1, 6)
+        c01_ties.run_ties(ctx, {'tie-mft': 25 * k, 'tie-czt': 25 * k, 'tie-zoom': 20 * k, 'tie-zoomaxes': 12 * k, 'tie-state': 25 * k,
+                                'tie-lit': 16 * k, 'tie-select': 40 * k, 'tie-roundtrip': 40 * k, 'tie-fftw': 16 * k, 'tie-nft': 20 * k})
     if ctx.boundary_skipped > 0.05 * max(1, ctx.traces_validated):
         raise MachineryError('more than 5 % of the correspondence cases were skipped at a float decision boundary')
 
 
 def replay(ctx, case):
+    if str(case.get('family', '')).startswith('tie-'):
+        from harness.props import c01_ties
+        return c01_ties.replay_case(ctx, case)
     if case.get('family') == 'select-edge':
         bad = edge_case_oracle(case)
     else:
